@@ -40,6 +40,9 @@ var (
 	// called with arguments: SELFDESTRUCT(calldata[0:32]); called without (a plain payment, a forwarder's inner call): STOP, the value stays
 	//   CALLDATASIZE ISZERO PUSH1 9 JUMPI PUSH1 0 CALLDATALOAD SELFDESTRUCT JUMPDEST STOP
 	CodeSuicider = common.FromHex("3615600957600035ff5b00")
+	// answers every call with the 32-byte word 8: a token contract's decimals() - makes the token usable in confidential
+	// transactions with a commitment unit of one token unit   (PUSH1 8 PUSH1 0 MSTORE PUSH1 32 PUSH1 0 RETURN)
+	CodeDecimals8 = common.FromHex("60086000526020" + "6000f3")
 	// SSTORE(key=calldata[0:32], value=calldata[32:64]) ; STOP   - contract storage: written, overwritten, cleared (value 0)
 	CodeStore = common.FromHex("6020356000355500")
 	// CALL(gas, to=calldata[0:32], value=callvalue, args=calldata[32:64]) then REVERT: whatever the callee did - a self-destruct included - is undone
@@ -148,7 +151,11 @@ func New(t *rapid.T, o Options) *Sim {
 	if o.Tokens {
 		nt := rapid.IntRange(1, 3).Draw(t, "ntokens")
 		for i := 0; i < nt; i++ {
-			s.Tokens = append(s.Tokens, addrOf(fmt.Sprintf("plain-token-%d", i)))
+			tok := addrOf(fmt.Sprintf("plain-token-%d", i))
+			s.Tokens = append(s.Tokens, tok)
+			// the token's contract answers decimals(): the token can enter the confidential pool
+			spec.Accounts = append(spec.Accounts, world.GenesisAccount{Addr: tok, Code: CodeDecimals8, Balance: big.NewInt(0), Tokens: map[common.Address]*big.Int{}})
+			s.Universe[tok] = struct{}{}
 		}
 	}
 	for i := 0; i < na; i++ {
@@ -1053,4 +1060,92 @@ func (s *Sim) GenUpgradeBy(t *rapid.T) *Tx {
 	name := rapid.SampledFrom([]string{"prints", "prints", "log", "getbalance"}).Draw(t, "upgradeto")
 	nonce := s.W.App.GetNonce(signer.Addr)
 	return &Tx{Tx: world.UpgradeTx(signer, s.WasmAddr, nonce, s.WasmCodes[name]), Kind: "wasm-upgrade", From: signer.Addr, Desc: fmt.Sprintf("wasm-upgrade to %s.wasm by %s nonce %d", name, signer.Addr.Hex()[:8], nonce)}
+}
+
+// tokenCap bounds one confidential token amount (commitments carry 64-bit amounts).
+var tokenCap = new(big.Int).SetUint64(1 << 60)
+
+// GenTokenDeposit draws an account->confidential transaction of a non-native token: the token amount is debited from the
+// account's token balance, the fee - in the native coin - from its balance.
+func (s *Sim) GenTokenDeposit(t *rapid.T) *Tx {
+	if len(s.Tokens) == 0 {
+		return nil
+	}
+	tok := rapid.SampledFrom(s.Tokens).Draw(t, "dtoken")
+	from := s.Accts[rapid.IntRange(0, len(s.Accts)-1).Draw(t, "dfrom")]
+	pend := s.W.App.GetPendingStateDB()
+	have := pend.GetTokenBalance(from.Addr, tok)
+	if have.Cmp(tokenCap) > 0 {
+		have = tokenCap
+	}
+	nd := rapid.IntRange(1, 2).Draw(t, "dndest")
+	var dests []types.DestEntry
+	total := new(big.Int)
+	for i := 0; i < nd; i++ {
+		w := s.Wallets[rapid.IntRange(0, len(s.Wallets)-1).Draw(t, "dwallet")]
+		amt := s.amountUpTo(t, new(big.Int).Div(have, big.NewInt(int64(nd))), "damt")
+		if amt.Sign() == 0 {
+			amt = big.NewInt(int64(rapid.IntRange(1, 1000).Draw(t, "dunits")))
+		}
+		dests = append(dests, w.Dest(uint64(rapid.IntRange(0, 2).Draw(t, "dsub")), amt))
+		total.Add(total, amt)
+	}
+	fee := new(big.Int).Mul(new(big.Int).SetUint64(types.CalNewAmountGas(big.NewInt(0), types.EverLiankeFee)), world.GasPrice)
+	nonce := s.W.App.GetNonce(from.Addr)
+	tx, err := world.AccountToUTXO(from, nonce, total, dests, tok, fee)
+	if err != nil {
+		return nil
+	}
+	return &Tx{Tx: tx, Kind: "token-a2u", From: from.Addr, Desc: fmt.Sprintf("token-a2u %s token %s %v -> %d outs fee %v nonce %d", from.Addr.Hex()[:8], tok.Hex()[:8], total, nd, fee, nonce)}
+}
+
+// GenTokenSpend draws a confidential spend of a non-native token (to a confidential destination, to an account, or both); a
+// generated account signs it and pays the fee in the native coin.
+func (s *Sim) GenTokenSpend(t *rapid.T) *Tx {
+	type cand struct {
+		w   *world.Wallet
+		tok common.Address
+	}
+	var cands []cand
+	for _, w := range s.Wallets {
+		for _, tok := range s.Tokens {
+			if len(unspent(w, tok)) > 0 {
+				cands = append(cands, cand{w, tok})
+			}
+		}
+	}
+	if len(cands) == 0 {
+		return nil
+	}
+	c := cands[rapid.IntRange(0, len(cands)-1).Draw(t, "tspender")]
+	un := unspent(c.w, c.tok)
+	ow := un[rapid.IntRange(0, len(un)-1).Draw(t, "tin")]
+	ringSize := rapid.IntRange(1, 3).Draw(t, "tring")
+	src := ow.Source(s.ring(t, c.tok, ow.GlobalIndex, ringSize))
+	total := new(big.Int).Set(ow.Amount)
+	payer := s.Accts[rapid.IntRange(0, len(s.Accts)-1).Draw(t, "tpayer")]
+	shape := rapid.SampledFrom([]string{"token-u2a", "token-u2u", "token-u2mix"}).Draw(t, "tshape")
+	var dests []types.DestEntry
+	to := rapid.SampledFrom(s.Recipients()).Draw(t, "tto")
+	dw := s.Wallets[rapid.IntRange(0, len(s.Wallets)-1).Draw(t, "tdw")]
+	fee := new(big.Int).Set(UTXOFee)
+	switch shape {
+	case "token-u2a":
+		dests = append(dests, &types.AccountDestEntry{To: to, Amount: total})
+		fee = new(big.Int).Mul(new(big.Int).SetUint64(types.CalNewAmountGas(big.NewInt(0), types.EverLiankeFee)), world.GasPrice)
+	case "token-u2u":
+		dests = append(dests, dw.Dest(uint64(rapid.IntRange(0, 2).Draw(t, "tsub")), total))
+	default:
+		a := new(big.Int).Div(total, big.NewInt(3))
+		if a.Sign() == 0 {
+			return nil
+		}
+		dests = append(dests, dw.Dest(0, new(big.Int).Sub(total, a)), &types.AccountDestEntry{To: to, Amount: a})
+		fee = new(big.Int).Add(fee, new(big.Int).Mul(new(big.Int).SetUint64(types.CalNewAmountGas(big.NewInt(0), types.EverLiankeFee)), world.GasPrice))
+	}
+	tx, err := c.w.SpendUTXOSigned([]*types.UTXOSourceEntry{src}, dests, c.tok, fee, payer)
+	if err != nil {
+		return nil
+	}
+	return &Tx{Tx: tx, Kind: shape, From: payer.Addr, KeyImages: []lktypes.Key{ow.KeyImage}, Desc: fmt.Sprintf("%s token %s %v (ring %d), fee %v paid by %s", shape, c.tok.Hex()[:8], total, len(src.Ring), fee, payer.Addr.Hex()[:8])}
 }
